@@ -112,9 +112,43 @@ package commonmark
 //@   unclaimed dec:0 termination needs a reader that does not return (0, nil) forever (io.Reader contract)
 //@   serves C01, C08, C04
 
+// ---------------------------------------------------------------------------
+// fillNulls (C01): in a buffer whose zero bytes come in complete, aligned
+// triples (what padNulls produces, cut at line boundaries), the zero at index
+// k is the (Z(b,0,k) mod 3)-th byte of its triple, and fillNulls turns every
+// triple into EF BF BD (U+FFFD) and changes nothing else.  The contract is
+// conditional on ZTriples(b) instead of requiring it: that padNulls' output has
+// the shape is not proved (listed as not decided under C01).
+// ---------------------------------------------------------------------------
+
+//@ spec ZTriples(s []byte) bool = forall k in [0, len(s)): (s[k] == 0 && CountC(s, 0, 0, k) % 3 == 0) ==> (k + 2 < len(s) && s[k + 1] == 0 && s[k + 2] == 0)
+//@ spec FFFDByte(r int) int = r == 0 ? 0xEF : (r == 1 ? 0xBF : 0xBD)
+
+//@ -- where the count of zeros before k is 1 or 2 mod 3, the byte before k is a zero of the same triple
+//@ lemma ZTriples_back(s []byte, k int)
+//@   requires ZTriples(s) && 0 <= k && k <= len(s)
+//@   ensures CountC(s, 0, 0, k) % 3 == 1 ==> (k >= 1 && s[k - 1] == 0 && CountC(s, 0, 0, k - 1) % 3 == 0)
+//@   ensures CountC(s, 0, 0, k) % 3 == 2 ==> (k >= 2 && s[k - 1] == 0 && CountC(s, 0, 0, k - 1) % 3 == 1)
+//@   decreases k
+//@   ih ZTriples_back(s, k - 1)
+//@   ih ZTriples_back(s, k - 2)
+//@   use CountC_bounds(s, 0, 0, k)
+//@   use CountC_bounds(s, 0, 0, k - 1)
+//@   use CountC_bounds(s, 0, 0, k - 2)
+//@   use CountC_bounds(s, 0, 0, k - 3)
+
 //@ func fillNulls
 //@   modifies b[0:len(b)]
+//@   ensures[kept] ZTriples(old(b)) ==> (forall k in [0, len(b)): old(b[k]) != 0 ==> b[k] == old(b[k]))
+//@   ensures[filled] ZTriples(old(b)) ==> (forall k in [0, len(b)): old(b[k]) == 0 ==> b[k] == FFFDByte(CountC(old(b), 0, 0, k) % 3))
+//@   loop 0: invariant[done] ZTriples(old(b)) ==> (forall k in [0, _i): b[k] == (old(b[k]) != 0 ? old(b[k]) : FFFDByte(CountC(old(b), 0, 0, k) % 3)))
+//@   loop 0: invariant[ahead] ZTriples(old(b)) ==> (forall k in [_i, len(b)): b[k] == ((old(b[k]) == 0 && CountC(old(b), 0, 0, k) % 3 != 0 && k - CountC(old(b), 0, 0, k) % 3 < _i) ? FFFDByte(CountC(old(b), 0, 0, k) % 3) : old(b[k])))
 //@   loop 0: invariant[frame] framed()
+//@   loop 0: use ZTriples_back(old(b), _i)
+//@   loop 0: use ZTriples_back(old(b), _i + 1)
+//@   loop 0: use ZTriples_back(old(b), _i + 2)
+//@   loop 0: use ZTriples_back(old(b), _i + 3)
+//@   loop 0: use CountC_bounds(old(b), 0, 0, _i)
 //@   serves C01, C04
 
 //@ -- adds n to every coordinate of the tree: writes span fields only
